@@ -240,7 +240,7 @@ pub fn run(e: &'static Engine) {
     }
     e.par(jobs);
     // (c) generated blocks for every pair in use (thorough: additionally for every (version, level) arm)
-    let per: u32 = e.tier.pick(200, 3000);
+    let per: u32 = e.tier.pick(800, 6000);
     let mut jobs: Vec<Job> = Vec::new();
     for ((len, _ec), (v, l)) in prs.iter().map(|(k, v)| (*k, *v)) {
         jobs.push(Box::new(move |jc: &mut JobCtx| {
